@@ -145,6 +145,10 @@ static shared_ptr<ExamInfo> make_exam(const ExamSpec& e) {
     const bool nm = e.modality == ImagingModality::NM;
     const char* name = nm ? (e.rn == 1 ? "^99m^Technetium" : "^123^Iodine") : (e.rn == 1 ? "^11^Carbon" : "^18^Fluorine");
     ei->set_radionuclide(db.get_radionuclide(ei->imaging_modality, name));
+  } else if (e.rn == 4) {
+    // a name the database knows, with half life and branching ratio overridden by the caller
+    ei->set_radionuclide(Radionuclide(e.modality == ImagingModality::NM ? "^99m^Technetium" : "^11^Carbon", e.modality == ImagingModality::NM ? 140.5F : 511.F, 0.5F, 4321.5F,
+                                      ei->imaging_modality));
   } else if (e.rn == 3) {
     ei->set_radionuclide(Radionuclide("Xx-99", e.modality == ImagingModality::NM ? -1.F : 511.F, 0.75F, 1234.5F, ei->imaging_modality));
   }
@@ -655,8 +659,9 @@ static void gen_exam(Case& c, vh::Rng& rng) {
     // next frame: back to back or after a gap (TimeFrameDefinitions refuses overlapping frames: "start_time is smaller
     // than previous end_time", so those cannot be written at all)
     t += rng.coin() ? d : d + rng.range(1, 16) / 8.; }
-  e.rn = rng.range(0, 3);
+  e.rn = rng.range(0, 4);
   if (e.modality != ImagingModality::PT && e.modality != ImagingModality::NM && (e.rn == 1 || e.rn == 2)) e.rn = 0;
+  if (e.modality != ImagingModality::PT && e.modality != ImagingModality::NM && e.rn == 4) e.rn = 3;
   static const double LO[] = { -1, -1, 0, 350, 425.5, 100.125 }, HI[] = { -1, 650, 650, 650, 600.25, 700 };
   int w = rng.range(0, 5);
   e.lo = LO[w]; e.hi = HI[w];
@@ -711,7 +716,16 @@ int main(int argc, char** argv) {
   };
   const std::string native = ByteOrder::get_native_order() == ByteOrder::big_endian ? "BIGENDIAN" : "LITTLEENDIAN";
   const std::string def_pt = rnj(ImagingModality::PT), def_nm = rnj(ImagingModality::NM), def_other = rnj(ImagingModality::MR);
-  auto emit_env = [&] { tr.emit(vh::Json("Env").str("native", native).raw("defPT", def_pt).raw("defNM", def_nm).raw("defOther", def_other)); };
+  // what the database answers for the names the driver uses (observed, not assumed)
+  std::vector<std::string> dbrecs;
+  for (auto mn : { std::make_pair(ImagingModality::PT, "^11^Carbon"), std::make_pair(ImagingModality::PT, "^18^Fluorine"),
+                   std::make_pair(ImagingModality::NM, "^99m^Technetium"), std::make_pair(ImagingModality::NM, "^123^Iodine") }) {
+    Radionuclide r = db.get_radionuclide(ImagingModality(mn.first), mn.second);
+    dbrecs.push_back(vh::Json().str("mod", ImagingModality(mn.first).get_name()).str("rn", r.get_name()).num("hlms", satd(r.get_half_life(false) * 1000.))
+                         .num("brppm", satd(r.get_branching_ratio(false) * 1.e6)).done());
+  }
+  const std::string dbj = join_raw(dbrecs);
+  auto emit_env = [&] { tr.emit(vh::Json("Env").str("native", native).raw("defPT", def_pt).raw("defNM", def_nm).raw("defOther", def_other).raw("db", dbj)); };
   if (mode == "rt") {
     const long ncases = atol(argv[3]);
     const int stage = argc > 4 ? atoi(argv[4]) : 0;
